@@ -13,7 +13,7 @@ CONSTANTS N, Depth
 VARIABLES head, hist, done
 gvars == <<head, hist, done>>
 
-Kinds == {"pub", "forged", "alien"}
+Kinds == {"pub", "forged", "alien", "rebodied"}
 Run(a, b) == [i \in 1..(b - a + 1) |-> [seq |-> a + i - 1, kind |-> "pub"]]
 Payloads ==
   ({ Run(a, b) : a \in 1..N, b \in 1..N } \ {<< >>})
